@@ -39,6 +39,9 @@ CHECKS = {
  "C03": ("DESIGN.md section 5 C03",
    "Same harness as C02, inbound side: a datagram to an external address is forwarded iff a live mapping owns the address and the owner has sent through that mapping to a remote matching the configured filtering behaviour (any / same IP / same IP and port); it is then delivered to the creator's internal address and port with source and payload unchanged; everything else (never-allocated address, expired mapping, missing permission) is dropped. Because the reference model never refreshes on inbound traffic, a refused or forwarded inbound datagram that prolonged a mapping or created a permission shows up as a wrong answer later in the same history. 1:1 mode: paired IPs forwarded with the port preserved, unpaired dropped.",
    "Bounded as C02 (k datagrams; a side effect of a refused datagram must show within the remaining events of the history)."),
+ "C13": ("DESIGN.md section 5 C13",
+   "Router side: one attachment step (the real Router.addNIC / assignIPAddress / IPNet.Contains code) from an arbitrary router state - subnet 10.b.c.0/24 (thorough: /16, /28) with symbolic b, c, arbitrary automatic counter, two NICs already attached at arbitrary addresses of the subnet, the new NIC with 0, 1 or 2 arbitrary static addresses: an automatically assigned address is not held by another NIC, lies inside the subnet and is registered for the new NIC, existing NICs keep their addresses, static addresses outside the subnet are refused. Host side: bounded histories of bind / look-up / release on the real socket table (udpConnMap) with a symbolic choice among two specific IPs and the wildcard and two ports per operation, against a reference model of the open (IP, port) pairs: a bind succeeds exactly when no open socket covers the address, a look-up returns exactly the covering socket, release frees the address.",
+   "The router step is inductive over histories of any length for the stated state shape (two attached NICs); the host side is bounded to 3 (5) operations and exercises the socket table directly (Net.ListenUDP / DialUDP / assignPort call into it; their own address-ownership test and the 5000-5999 ephemeral search are outside this check). Map keys are strings of the Str datatype (IP.String injective)."),
 }
 
 def main():
